@@ -2,6 +2,7 @@
 from __future__ import annotations
 
 import ast
+import functools
 import re
 
 from ..pymodel import package
@@ -185,7 +186,7 @@ def _r6(ctx, pkg):
                 if isinstance(x, ast.Attribute) and any(isinstance(p, ast.Call) and p.func is x for p in ast.walk(fn)):
                     continue        # counted once, at the call
                 n += 1
-                why = GLOBAL_READERS.get((f, qual))
+                why = GLOBAL_READERS.get((f, qual)) or next((w for (af, aq), w in GLOBAL_READERS.items() if af == f and _helper_of(pkg, qual, aq)), None)
                 ctx.check(why is not None, "R6", f"{qual}:reads {t}", (f, x.lineno), f"sanctioned reader: {why}" if why else
                           f"`{qual}` reads the process-global `{t}`: what it returns depends on the network that installed its lists last, not on this network "
                           "(render A, build B, render A again gives different files)",
@@ -369,7 +370,7 @@ def _r2(ctx, pkg):
     allowed_now = {("naunet/templateloader.py", "TemplateLoader.__init__"), ("naunet/configuration.py", "BaseConfiguration.content")}
     for f, line in now:
         fn = _enclosing(pkg.modules[f], None, line)
-        ok = (f, fn) in allowed_now
+        ok = (f, fn) in allowed_now or any(f == af and _helper_of(pkg, fn, aq) for af, aq in allowed_now)
         ctx.check(ok, "R2", f"{f}:{fn}:datetime.now", (f, line), "embedded date (excluded by the property)" if ok else "an additional time source reaches generated output")
     for f, line, s in bad:
         # render.py checks directories with os.listdir only for emptiness
@@ -379,6 +380,35 @@ def _r2(ctx, pkg):
             continue
         ctx.bad("R2", f"{f}:{fn}:{s}", (f, line), f"`{s}` is a source of run-to-run variation in a module that takes part in code generation")
     ctx.floor("R2", "datetime.now sites", len(now), 2)
+
+
+def _helper_of(pkg, qual, owner_qual) -> bool:
+    """qual is a private method of the class of owner_qual that is reached (through self./cls. calls of private methods) from
+    owner_qual and called from nowhere else in the class: it is a piece of owner_qual"""
+    if "." not in qual or "." not in owner_qual or qual.split(".")[0] != owner_qual.split(".")[0]:
+        return False
+    cname, m = qual.split(".", 1)
+    ci = pkg.classes.get(cname)
+    if ci is None or not _private(m) or m not in ci.methods:
+        return False
+
+    def callees(fn):
+        return {c.func.attr for c in ast.walk(fn) if isinstance(c, ast.Call) and isinstance(c.func, ast.Attribute) and isinstance(c.func.value, ast.Name)
+                and c.func.value.id in ("self", "cls") and c.func.attr in ci.methods}
+    owner = owner_qual.split(".", 1)[1]
+    if owner not in ci.methods:
+        return False
+    reach, todo = set(), [owner]
+    while todo:
+        x = todo.pop()
+        for y in callees(ci.methods[x]):
+            if y not in reach and _private(y):
+                reach.add(y)
+                todo.append(y)
+    if m not in reach:
+        return False
+    others = [k for k, fn in ci.methods.items() if k != owner and k not in reach and m in callees(fn)]
+    return not others
 
 
 def _enclosing(mod, node, line=None):
@@ -430,6 +460,7 @@ def _global_writes(pkg):
                     tg = n.targets
                 elif isinstance(n, ast.AugAssign):
                     tg = [n.target]
+                tg = [e for t in tg for e in (t.elts if isinstance(t, (ast.Tuple, ast.List)) else [t])]      # a, b = x, y
                 for t in tg:
                     if isinstance(t, ast.Attribute) and t.attr in names and isinstance(t.value, ast.Name) and t.value.id in ("cls", "Species", "KROMEReaction", "chemistrydata"):
                         out.append((f, qual, n.lineno, t.value.id, t.attr, "assign"))
@@ -441,6 +472,37 @@ def _global_writes(pkg):
                         out.append((f, qual, n.lineno, o.value.id, o.attr, n.func.attr))
                     elif isinstance(o, ast.Name) and o.id in names:
                         out.append((f, qual, n.lineno, "module", o.id, n.func.attr))
+                # the table handed to a helper of the same class that changes its parameter in place: the caller writes it
+                if isinstance(n, ast.Call) and isinstance(n.func, ast.Attribute) and isinstance(n.func.value, ast.Name) and "." in qual:
+                    cname = qual.split(".")[0]
+                    ci = pkg.classes.get(cname)
+                    if ci is not None and n.func.value.id in ("cls", "self", cname) and n.func.attr in ci.methods and ci.methods[n.func.attr] is not fn:
+                        callee = ci.methods[n.func.attr]
+                        params = [a.arg for a in callee.args.args]
+                        if "staticmethod" not in {ast.unparse(d) for d in callee.decorator_list}:
+                            params = params[1:]
+                        mutated = _params_mutated(callee)
+                        bound = list(zip(params, n.args)) + [(k.arg, k.value) for k in n.keywords if k.arg in params]
+                        for p_, a in bound:
+                            if p_ in mutated and isinstance(a, ast.Attribute) and a.attr in names and isinstance(a.value, ast.Name) \
+                                    and a.value.id in ("cls", "Species", "KROMEReaction", "chemistrydata"):
+                                out.append((f, qual, n.lineno, a.value.id, a.attr, f"{n.func.attr}({p_}).{mutated[p_]}"))
+    return out
+
+
+@functools.lru_cache(maxsize=None)
+def _params_mutated(fn) -> dict:
+    """parameter -> the in-place operation the function applies to it (the parameter is never re-bound)"""
+    params = {a.arg for a in fn.args.args + fn.args.kwonlyargs}
+    rebound = {n.id for n in ast.walk(fn) if isinstance(n, ast.Name) and isinstance(n.ctx, ast.Store)}
+    out = {}
+    for n in ast.walk(fn):
+        if isinstance(n, ast.Call) and isinstance(n.func, ast.Attribute) and n.func.attr in STATE_MUTATORS and isinstance(n.func.value, ast.Name) and n.func.value.id in params - rebound:
+            out.setdefault(n.func.value.id, n.func.attr)
+        elif isinstance(n, (ast.Assign, ast.AugAssign, ast.Delete)):
+            for t in (n.targets if isinstance(n, (ast.Assign, ast.Delete)) else [n.target]):
+                if isinstance(t, ast.Subscript) and isinstance(t.value, ast.Name) and t.value.id in params - rebound:
+                    out.setdefault(t.value.id, "item store")
     return out
 
 
@@ -481,11 +543,12 @@ def discovered_state(ctx, pkg, rule="R3"):
             for n in ast.walk(fn):
                 cands = []
                 if isinstance(n, (ast.Assign, ast.AugAssign)):
-                    for t in (n.targets if isinstance(n, ast.Assign) else [n.target]):
-                        b = t
-                        while isinstance(b, ast.Subscript):
-                            b = b.value
-                        cands.append((b, b is not t, "assignment"))
+                    for t0 in (n.targets if isinstance(n, ast.Assign) else [n.target]):
+                        for t in (t0.elts if isinstance(t0, (ast.Tuple, ast.List)) else [t0]):
+                            b = t
+                            while isinstance(b, ast.Subscript):
+                                b = b.value
+                            cands.append((b, b is not t, "assignment"))
                 elif isinstance(n, ast.Call) and isinstance(n.func, ast.Attribute) and n.func.attr in STATE_MUTATORS:
                     b = n.func.value
                     while isinstance(b, ast.Subscript):
@@ -508,10 +571,131 @@ def discovered_state(ctx, pkg, rule="R3"):
     ctx.floor(rule, "functions scanned for class-level writes", nscan, 190)
 
 
+# ------------------------------------------------------------------ R3 helpers: what a Network method installs / parses, helpers included
+
+def _private(name: str) -> bool:
+    return name.startswith("_") and not name.startswith("__")
+
+
+_CMPSYM = {"Eq": "==", "NotEq": "!=", "Lt": "<", "LtE": "<=", "Gt": ">", "GtE": ">=", "In": "in", "NotIn": "not in", "Is": "is", "IsNot": "is not"}
+_BINSYM = {"Add": "+", "Sub": "-", "Mult": "*", "Div": "/", "Mod": "%", "FloorDiv": "//", "Pow": "**", "BitOr": "|", "BitAnd": "&"}
+
+
+def _src(v, top=True):
+    """Python text of a reconstructed condition (as ast.unparse would print the expression it stands for)"""
+    from ..valueflow import show
+    k = v[0]
+    if k in ("param", "global"):
+        return v[1]
+    if k == "const":
+        return repr(v[1])
+    if k == "attr":
+        return f"{_src(v[1], False)}.{v[2]}"
+    if k == "bool":
+        t = (" and " if v[1] == "And" else " or ").join(_src(x, False) for x in v[2])
+        return t if top else f"({t})"
+    if k == "unop" and v[1] == "Not":
+        return f"not {_src(v[2], False)}"
+    if k == "cmp":
+        t = _src(v[2][0], False)
+        for o, x in zip(v[1], v[2][1:]):
+            t += f" {_CMPSYM.get(o, o)} {_src(x, False)}"
+        return t if top else f"({t})"
+    if k == "binop":
+        t = f"{_src(v[2], False)} {_BINSYM.get(v[1], v[1])} {_src(v[3], False)}"
+        return t if top else f"({t})"
+    if k == "call":
+        return f"{_src(v[1], False)}({', '.join([_src(a) for a in v[2]] + [f'{kk}={_src(x)}' for kk, x in v[3]])})"
+    if k == "meth":
+        return f"{_src(v[1], False)}.{v[2]}({', '.join([_src(a) for a in v[3]] + [f'{kk}={_src(x)}' for kk, x in v[4]])})"
+    if k == "sub":
+        return f"{_src(v[1], False)}[{_src(v[2])}]"
+    return show(v)
+
+
+def _guard_text(guards) -> str:
+    """the condition under which a statement runs, as one Python expression ('' = always)"""
+    from ..valueflow import norm_guard, simp
+    parts = []
+    for c, pol in guards:
+        c, pol = norm_guard((simp(c), pol))
+        if pol:
+            parts.append(c)
+        elif c[0] == "cmp" and len(c[1]) == 1 and c[1][0] in ("Eq", "In", "Is"):
+            parts.append(("cmp", ({"Eq": "NotEq", "In": "NotIn", "Is": "IsNot"}[c[1][0]],), c[2]))
+        else:
+            parts.append(("unop", "Not", c))
+    seen = []
+    for p_ in parts:
+        if p_ not in seen:
+            seen.append(p_)
+    if not seen:
+        return ""
+    return _src(seen[0]) if len(seen) == 1 else " and ".join(_src(x, False) for x in seen)
+
+
+class _InstallSummary:
+    """Per Network method: the statements that install this network's element lists into Species -- written in the method or in a
+    private helper it calls as a statement (the helper's own guards are added to those of the call) -- and the lines on which a
+    species name is parsed (Species(..), the reaction factory, a private helper that does either)."""
+
+    def __init__(self, pkg):
+        self.pkg = pkg
+        self.ci = pkg.cls("Network")
+        self._sites = {}
+        self._parse = {}
+
+    def sites(self, mname, depth=0):
+        from ..valueflow import Flow, simp
+        if mname in self._sites:
+            return self._sites[mname]
+        fn = self.ci.methods.get(mname)
+        out = []
+        self._sites[mname] = out            # recursion guard
+        if fn is None or depth > 3:
+            return out
+        SELF = ("param", fn.args.args[0].arg) if fn.args.args else ("param", "self")
+        fl = Flow(fn, NF)
+        for f in fl.facts:
+            if f.kind != "call" or f.value is None or f.value[0] != "meth":
+                continue
+            obj, name = simp(f.value[1]), f.value[2]
+            if obj == ("global", "Species") and name in ("set_known_elements", "set_known_pseudoelements"):
+                out.append({"what": "elements" if name == "set_known_elements" else "pseudo", "guards": tuple(f.guards), "line": f.line, "loops": bool(f.loops)})
+            elif obj == SELF and _private(name) and name in self.ci.methods and name != mname:
+                for x in self.sites(name, depth + 1):
+                    out.append({"what": x["what"], "guards": tuple(f.guards) + tuple(x["guards"]), "line": f.line, "loops": bool(f.loops) or x["loops"]})
+        return out
+
+    def parse_lines(self, mname, depth=0):
+        if mname in self._parse:
+            return self._parse[mname]
+        fn = self.ci.methods.get(mname)
+        out = []
+        self._parse[mname] = out
+        if fn is None or depth > 3:
+            return out
+        for n in ast.walk(fn):
+            if not isinstance(n, ast.Call):
+                continue
+            t = ast.unparse(n.func)
+            if t == "Species" or t.endswith("_reaction_factory"):
+                out.append(n.lineno)
+            elif isinstance(n.func, ast.Attribute) and isinstance(n.func.value, ast.Name) and n.func.value.id == "self" and n.func.attr in self.ci.methods and n.func.attr != mname:
+                callee = n.func.attr
+                if _private(callee):
+                    if self.parse_lines(callee, depth + 1):
+                        out.append(n.lineno)
+                elif callee in ("add_reaction", "add_reaction_from_file"):
+                    out.append(n.lineno)
+        return out
+
+
 def _r3(ctx, pkg):
     discovered_state(ctx, pkg, "R3")
     writes = _global_writes(pkg)
-    ctx.floor("R3", "writes to process-global state", len(writes), 25)
+    # counted per (writer, table): how many statements a writer spreads the write over is a matter of style
+    ctx.floor("R3", "writes to process-global state", len({(w[1], w[4]) for w in writes}), 25)
     seen = set()
     for f, qual, line, owner, attr, how in writes:
         q = qual
@@ -523,59 +707,58 @@ def _r3(ctx, pkg):
             ctx.ok("R3", key, (f, line), "EnzoPatch.render saves and restores the element list around its temporary additions") if _patch_restores(pkg) else \
                 ctx.bad("R3", key, (f, line), "the patch renderer changes the known-element list and does not restore it")
             continue
-        ok = q in SANCTIONED
+        ok = q in SANCTIONED or _only_called_by_sanctioned(pkg, q)
         ctx.check(ok, "R3", f"writer {key}", (f, line), f"sanctioned writer: {SANCTIONED.get(q, '')}" if ok else
                   f"`{qual}` writes the process-global `{attr}` ({how}); it is not one of the sanctioned writers: state set for one network leaks into the next one built in the same process")
     # installation discipline in Network
     ci = pkg.cls("Network")
     ctx.saw(NF, "Network")
     ninst = 0
+    summ = _InstallSummary(pkg)
     for mname, fn in ci.methods.items():
-        src = ast.unparse(fn)
-        parses = bool(re.search(r"\bSpecies\(", src)) or "_add_reaction(" in src or "add_reaction(" in src and mname not in ("add_reaction",) or "_reaction_factory" in src
-        installs = [n for n in ast.walk(fn) if isinstance(n, ast.Call) and ast.unparse(n.func) == "Species.set_known_elements"]
-        if mname in ("_add_reaction",):
-            continue        # private: always entered through add_reaction / add_reaction_from_file
-        if not parses and not installs:
+        if _private(mname):
+            continue        # private: always entered through a public entry point, where its statements are accounted for
+        sites = summ.sites(mname)
+        parses = summ.parse_lines(mname)
+        if not parses and not sites:
             continue
         key = f"Network.{mname}"
-        if not installs:
-            if mname in ("allowed_species.setter",) or "add_reaction" in src or "add_reaction_from_file" in src:
-                # delegates to an installing entry point before any name is parsed?
-                first_species = min([n.lineno for n in ast.walk(fn) if isinstance(n, ast.Call) and ast.unparse(n.func) == "Species"] or [10 ** 9])
-                first_deleg = min([n.lineno for n in ast.walk(fn) if isinstance(n, ast.Call) and ast.unparse(n.func) in ("self.add_reaction", "self.add_reaction_from_file")] or [10 ** 9])
-                if first_deleg < first_species:
-                    ctx.ok("R3", f"{key}:installation", (NF, fn.lineno), "delegates to an installing entry point before any species name is parsed")
-                    continue
+        first_species = min(parses or [10 ** 9])
+        if not sites:
+            # delegates to an installing entry point before any name is parsed?
+            deleg = [n.lineno for n in ast.walk(fn) if isinstance(n, ast.Call) and isinstance(n.func, ast.Attribute) and isinstance(n.func.value, ast.Name)
+                     and n.func.value.id == "self" and not _private(n.func.attr) and summ.sites(n.func.attr)]
+            own = [n.lineno for n in ast.walk(fn) if isinstance(n, ast.Call) and ast.unparse(n.func) == "Species"] + \
+                  [ln for ln in parses if ln not in deleg]
+            if deleg and min(deleg) < min(own or [10 ** 9]):
+                ctx.ok("R3", f"{key}:installation", (NF, fn.lineno), "delegates to an installing entry point before any species name is parsed")
+                continue
             ctx.bad("R3", f"{key}:installation", (NF, fn.lineno),
                     f"Network.{mname} parses species names but never installs this network's element lists: it uses whatever lists the last network left in Species")
             continue
         ninst += 1
-        inst = installs[0]
-        # guarded?
-        guard = None
-        for n in ast.walk(fn):
-            if isinstance(n, ast.If) and any(inst is x for x in ast.walk(n)):
-                guard = n
-                break
-        pseudo = any(isinstance(n, ast.Call) and ast.unparse(n.func) == "Species.set_known_pseudoelements" for n in ast.walk(fn))
-        first_species = min([n.lineno for n in ast.walk(fn) if isinstance(n, ast.Call) and ast.unparse(n.func) == "Species"] or [10 ** 9])
-        before = inst.lineno < first_species
-        ctx.check(pseudo and before, "R3", f"{key}:installs both lists first", (NF, inst.lineno), "elements and pseudo-elements are installed before any name is parsed")
-        gtxt = "".join(ast.unparse(guard.test).split()) if guard is not None else ""
-        ctx.check(guard is None, "R3", f"{key}:unconditional installation" + (f"[if {gtxt}]" if gtxt else ""), (NF, inst.lineno),
-                  "the network's lists are installed unconditionally" if guard is None else
-                  f"the installation is skipped when `{ast.unparse(guard.test)[:70]}` is false: a network with default (empty) lists inherits the tables of whichever "
+        el = [x for x in sites if x["what"] == "elements"]
+        ps = [x for x in sites if x["what"] == "pseudo"]
+        inst = (el or ps)[0]
+        before = inst["line"] < first_species
+        ctx.check(bool(el) and bool(ps) and before, "R3", f"{key}:installs both lists first", (NF, inst["line"]), "elements and pseudo-elements are installed before any name is parsed")
+        if inst["loops"]:
+            ctx.unrec("R3", f"{key}:unconditional installation", (NF, inst["line"]), "the installation sits in a loop: whether it runs on every call is not decided")
+            continue
+        gtxt = _guard_text(inst["guards"])
+        gkey = "".join(gtxt.split())
+        ctx.check(not gtxt, "R3", f"{key}:unconditional installation" + (f"[if {gkey}]" if gtxt else ""), (NF, inst["line"]),
+                  "the network's lists are installed unconditionally" if not gtxt else
+                  f"the installation is skipped when `{gtxt[:70]}` is false: a network with default (empty) lists inherits the tables of whichever "
                   "network was used before it in this process",
-                  expected="Species.set_known_elements(..) on every call", found=f"if {ast.unparse(guard.test)[:70]}:" if guard is not None else "")
+                  expected="Species.set_known_elements(..) on every call", found=f"if {gtxt[:70]}:" if gtxt else "")
     ctx.floor("R3", "installing entry points of Network", ninst, 6)
     # entry points that render: to_code / export build Species for ODE modifiers (through TemplateLoader) without installation
     for mname in ("to_code", "export"):
         fn = ci.methods.get(mname)
         if fn is None:
             continue
-        src = ast.unparse(fn)
-        ok = "Species.set_known_elements" in src
+        ok = any(x["what"] == "elements" for x in summ.sites(mname))
         ctx.check(ok, "R3", f"Network.{mname}:installation", (NF, fn.lineno),
                   "installs the network's lists before rendering" if ok else
                   f"Network.{mname} renders (TemplateLoader builds Species(..) for ODE modifiers and Species.alias consults the global element list) without installing "
@@ -591,12 +774,37 @@ def _r3(ctx, pkg):
                   "values configured for one network are used for every later network in the process")
 
 
+def _only_called_by_sanctioned(pkg, qual) -> bool:
+    """a private method of a class all of whose callers (inside the class; nobody outside may call it) are sanctioned writers does
+    their work: the write is theirs"""
+    if "." not in qual:
+        return False
+    cname, m = qual.split(".", 1)
+    ci = pkg.classes.get(cname)
+    if ci is None or not _private(m):
+        return False
+    callers = [k for k, fn in ci.methods.items() if k != m and any(
+        isinstance(c, ast.Call) and isinstance(c.func, ast.Attribute) and c.func.attr == m and isinstance(c.func.value, ast.Name) and c.func.value.id in ("cls", "self", cname)
+        for c in ast.walk(fn))]
+    used_elsewhere = any(isinstance(n, ast.Attribute) and n.attr == m for f_ in pkg.files if f_ != ci.file for n in ast.walk(pkg.modules[f_]))
+    return bool(callers) and not used_elsewhere and all(f"{cname}.{k}" in SANCTIONED for k in callers)
+
+
 def _patch_restores(pkg):
+    """the patch renderer saves a COPY of the element list in a local before its temporary additions and hands that local back to
+    Species.set_known_elements afterwards (locals by role, not by name)"""
     fn = pkg.classes["EnzoPatch"].methods.get("render")
     if fn is None:
         return False
-    src = ast.unparse(fn)
-    return "known_elements = Species.known_elements().copy()" in src and "Species.set_known_elements(known_elements)" in src
+    saved = {}
+    for n in ast.walk(fn):
+        if isinstance(n, ast.Assign) and len(n.targets) == 1 and isinstance(n.targets[0], ast.Name):
+            v = "".join(ast.unparse(n.value).split())
+            if v in ("Species.known_elements().copy()", "list(Species.known_elements())", "Species.known_elements()[:]", "copy.copy(Species.known_elements())", "copy(Species.known_elements())"):
+                saved[n.targets[0].id] = n.lineno
+    restores = [n for n in ast.walk(fn) if isinstance(n, ast.Call) and ast.unparse(n.func) == "Species.set_known_elements" and len(n.args) == 1
+                and isinstance(n.args[0], ast.Name) and n.args[0].id in saved and saved[n.args[0].id] < n.lineno]
+    return bool(restores)
 
 
 # ------------------------------------------------------------------ R4 KROME directive state
@@ -606,72 +814,79 @@ def krome_reset(ctx, pkg, rule="R4"):
     ctx.saw(KR, "KROMEReaction.preprocessing")
     _, pre = pkg.resolve("KROMEReaction", "preprocessing")
     _, ini = pkg.resolve("KROMEReaction", "initialize")
+    def with_helpers(fn):
+        """the method and the private classmethods of the class it calls on cls (transitively): one body split in pieces"""
+        out, todo = [fn], [fn]
+        while todo:
+            x = todo.pop()
+            for c in ast.walk(x):
+                if isinstance(c, ast.Call) and isinstance(c.func, ast.Attribute) and isinstance(c.func.value, ast.Name) and c.func.value.id == "cls" and _private(c.func.attr):
+                    _, h = pkg.resolve("KROMEReaction", c.func.attr)
+                    if h is not None and not any(h is y for y in out):
+                        out.append(h)
+                        todo.append(h)
+        return out
     mutated = set()
-    for n in ast.walk(pre):
-        if isinstance(n, ast.Assign):
-            for t in n.targets:
-                if isinstance(t, ast.Attribute) and isinstance(t.value, ast.Name) and t.value.id == "cls":
-                    mutated.add(t.attr)
-        if isinstance(n, ast.Call) and isinstance(n.func, ast.Attribute) and n.func.attr in MUTATORS and isinstance(n.func.value, ast.Attribute) \
-                and isinstance(n.func.value.value, ast.Name) and n.func.value.value.id == "cls":
-            mutated.add(n.func.value.attr)
-    reset = {t.attr for n in ast.walk(ini) if isinstance(n, ast.Assign) for t in n.targets if isinstance(t, ast.Attribute) and isinstance(t.value, ast.Name) and t.value.id == "cls"}
+    for part in with_helpers(pre):
+        for n in ast.walk(part):
+            if isinstance(n, (ast.Assign, ast.AugAssign)):
+                for t in (n.targets if isinstance(n, ast.Assign) else [n.target]):
+                    for e in (t.elts if isinstance(t, (ast.Tuple, ast.List)) else [t]):
+                        if isinstance(e, ast.Attribute) and isinstance(e.value, ast.Name) and e.value.id == "cls":
+                            mutated.add(e.attr)
+            if isinstance(n, ast.Call) and isinstance(n.func, ast.Attribute) and n.func.attr in MUTATORS and isinstance(n.func.value, ast.Attribute) \
+                    and isinstance(n.func.value.value, ast.Name) and n.func.value.value.id == "cls":
+                mutated.add(n.func.value.attr)
+    reset = set()
+    for part in with_helpers(ini):
+        for n in ast.walk(part):
+            if isinstance(n, ast.Assign):
+                for t in n.targets:
+                    for e in (t.elts if isinstance(t, (ast.Tuple, ast.List)) else [t]):
+                        if isinstance(e, ast.Attribute) and isinstance(e.value, ast.Name) and e.value.id == "cls":
+                            reset.add(e.attr)
     ctx.floor(rule, "directive attributes", len(mutated), 3, (KR, pre.lineno))
     for a in sorted(mutated):
         ctx.check(a in reset, rule, f"KROMEReaction.initialize resets {a}", (KR, ini.lineno),
                   f"`{a}` is reset before every file" if a in reset else
                   f"`{a}` is changed by directive lines (preprocessing) but not reset in initialize(): directives of one file (also of a read that raised half-way) act on the next file")
     # Network calls initialize before reading, on every path
+    from ..valueflow import Flow, simp, norm_guard, show
     net = pkg.cls("Network")
     for mname in ("add_reaction_from_file", "add_reaction"):
         fn = net.methods[mname]
-        init_calls = [n for n in ast.walk(fn) if isinstance(n, ast.Call) and isinstance(n.func, ast.Attribute) and n.func.attr == "initialize" and isinstance(n.func.value, ast.Name)]
-        reads = [n for n in ast.walk(fn) if isinstance(n, ast.Call) and ast.unparse(n.func) == "self._add_reaction"]
-        ok = len(init_calls) == 1 and reads and init_calls[0].lineno < min(r.lineno for r in reads)
+        fl = Flow(fn, NF)
+        init_calls = [f for f in fl.facts if f.kind == "call" and f.target == "initialize" and f.value is not None and f.value[0] == "meth" and not f.value[3]]
+        reads_lines = [n.lineno for n in ast.walk(fn) if isinstance(n, ast.Call) and ast.unparse(n.func) == "self._add_reaction"]
+        if not init_calls:
+            # not in this method: in a private helper it calls?  then order and conditions are not decided here
+            helpers = [n.func.attr for n in ast.walk(fn) if isinstance(n, ast.Call) and isinstance(n.func, ast.Attribute) and isinstance(n.func.value, ast.Name)
+                       and n.func.value.id == "self" and _private(n.func.attr) and n.func.attr in net.methods]
+            if any(isinstance(c, ast.Call) and isinstance(c.func, ast.Attribute) and c.func.attr == "initialize" for h in helpers for c in ast.walk(net.methods[h])):
+                ctx.unrec(rule, f"Network.{mname}:initialize before reading", (NF, fn.lineno), "the format class is initialised inside a helper: order and conditions are not decided")
+                continue
+        ok = len(init_calls) == 1 and bool(reads_lines) and init_calls[0].line < min(reads_lines)
         ctx.check(ok, rule, f"Network.{mname}:initialize before reading", (NF, fn.lineno), "the format class is initialised before any line is parsed")
         # ... for EVERY file / string: the only condition it may depend on is that the format class exists
         if len(init_calls) == 1:
-            recv = init_calls[0].func.value.id
-            par = _parents(fn)
-            conds = []
-            x = init_calls[0]
-            # a condition cached in a local (`from_string = not isinstance(..)`, assigned once) is that condition
-            once = {}
-            for a_ in ast.walk(fn):
-                if isinstance(a_, ast.Name) and isinstance(a_.ctx, ast.Store):
-                    once[a_.id] = once.get(a_.id, 0) + 1
-            local_val = {a_.targets[0].id: a_.value for a_ in ast.walk(fn) if isinstance(a_, ast.Assign) and len(a_.targets) == 1
-                         and isinstance(a_.targets[0], ast.Name) and once.get(a_.targets[0].id) == 1}
-
-            def cond_text(t):
-                if recv in {n_.id for n_ in ast.walk(t) if isinstance(n_, ast.Name)}:
-                    return ast.unparse(t)          # a test of the format class itself
-                for _ in range(3):
-                    if isinstance(t, ast.Name) and t.id in local_val:
-                        t = local_val[t.id]
-                    elif isinstance(t, ast.UnaryOp) and isinstance(t.op, ast.Not) and isinstance(t.operand, ast.Name) and t.operand.id in local_val:
-                        t = ast.UnaryOp(op=ast.Not(), operand=local_val[t.operand.id])
-                    else:
-                        break
-                return ast.unparse(t)
-            while x in par:
-                p_ = par[x]
-                if isinstance(p_, ast.If) and x is not p_.test:
-                    conds.append(cond_text(p_.test))
-                if isinstance(p_, (ast.For, ast.While)):
-                    conds.append("<loop>")
-                x = p_
-            def bare(c):
-                c = c.strip()
-                while c.startswith("not "):
-                    c = c[4:].strip()
-                return c[1:-1].strip() if c.startswith("(") and c.endswith(")") else c
-            # a Reaction INSTANCE was parsed elsewhere: nothing is read here, nothing to reset
-            extra = [c for c in conds if bare(c) not in (recv, f"{recv} is None", f"{recv} is not None") and not re.fullmatch(r"isinstance\(\w+, Reaction\)", bare(c))]
-            ctx.check(not extra, rule, f"Network.{mname}:initialize for every file", (NF, init_calls[0].lineno),
+            f = init_calls[0]
+            recv = simp(f.value[1])
+            rtxt = _src(recv)
+            extra = ["<loop>"] if f.loops else []
+            for g in f.guards:
+                c, pol = norm_guard((simp(g[0]), g[1]))
+                if c == recv:
+                    continue                      # the format class exists (whichever way the test is written)
+                if c[0] == "cmp" and c[1] in (("Is",), ("Eq",)) and c[2] == (recv, ("const", None)):
+                    continue
+                # a Reaction INSTANCE was parsed elsewhere: nothing is read here, nothing to reset
+                if c[0] == "call" and c[1] == ("global", "isinstance") and len(c[2]) == 2 and c[2][0][0] == "param" and c[2][1] == ("global", "Reaction"):
+                    continue
+                extra.append(_guard_text([(c, pol)]))
+            ctx.check(not extra, rule, f"Network.{mname}:initialize for every file", (NF, f.line),
                       "the reset depends on nothing but the existence of the format class" if not extra else
                       f"the per-file reset of the format class is skipped when `{extra[0]}` does not hold: directive state (@format, @common, @var) of the previous file decodes the next one",
-                      expected=f"{recv}.initialize() on every path that reads", found=" and ".join(extra))
+                      expected=f"{rtxt[:60]}.initialize() on every path that reads", found=" and ".join(extra))
 
 
 def _r4(ctx, pkg):
@@ -700,6 +915,59 @@ MUTANTS = [
     {"name": "new-global-writer", "file": "naunet/templateloader.py", "old": "        species_kwargs = species_kwargs or {}\n\n        rate_sym", "new": "        species_kwargs = species_kwargs or {}\n        Species._replacement.update({})\n\n        rate_sym", "rules": ["R3"]},
     {"name": "sources-joined-from-set", "file": "naunet/configuration.py", "old": "        self._network_elements = [x.name for x in network.elements]", "new": "        self._network_elements = [x.name for x in set(network.elements)]", "rules": ["R1"]},
 ]
+_INST = "        if self._known_elements or self._known_pseudo_elements:\n            Species.set_known_elements(self._known_elements)\n            Species.set_known_pseudoelements(self._known_pseudo_elements)\n"
+_HELPER_AT = "    def __contains__(self, reac: Reaction) -> bool:\n"
+MUTANTS += [
+    # the installation moved into a private helper: the helper's own guard and the guard of the call both count
+    {"name": "install-helper-skips-when-same", "edits": [
+        {"file": NF, "old": _INST, "new": "        self._install_lists()\n", "count": 6},
+        {"file": NF, "old": _HELPER_AT, "new": "    def _install_lists(self) -> None:\n        if Species.known_elements() == self._known_elements:\n            return\n"
+                                               "        Species.set_known_elements(self._known_elements)\n        Species.set_known_pseudoelements(self._known_pseudo_elements)\n\n" + _HELPER_AT}], "rules": ["R3"]},
+    {"name": "install-helper-never-called-by-setter", "edits": [
+        {"file": NF, "old": _INST, "new": "        self._install_lists()\n", "count": 6},
+        {"file": NF, "old": "        self._install_lists()\n\n        self._required_species = [", "new": "        self._required_species = ["},
+        {"file": NF, "old": _HELPER_AT, "new": "    def _install_lists(self) -> None:\n" + _INST + "\n" + _HELPER_AT}], "rules": ["R3"]},
+    {"name": "initialize-only-for-first-string", "file": NF, "old": "            if rclass:\n                rclass.initialize()\n            else:\n                raise RuntimeError(f\"Unknown format: {format}\")",
+     "new": "            fresh = not self.reaction_list\n            if not rclass:\n                raise RuntimeError(f\"Unknown format: {format}\")\n            if fresh:\n                rclass.initialize()", "rules": ["R4"]},
+]
+_RESET = "    @classmethod\n    def reset(cls) -> None:\n"
+MUTANTS += [
+    {"name": "table-cleared-through-helper-by-new-writer", "file": SP, "old": _RESET,
+     "new": "    @classmethod\n    def forget(cls) -> None:\n        cls._drop(cls._known_elements)\n\n    @staticmethod\n    def _drop(table) -> None:\n        table.clear()\n\n" + _RESET, "rules": ["R3"]},
+    {"name": "time-stamp-in-helper-of-another-function", "edits": [
+        {"file": "naunet/configuration.py", "old": "    @property\n    def content(self) -> str:\n",
+         "new": "    def _stamp(self) -> str:\n        return datetime.now().strftime(\"%H%M%S\")\n\n    @property\n    def content(self) -> str:\n"},
+        {"file": "naunet/configuration.py", "old": "        general[\"name\"] = self._name\n", "new": "        general[\"name\"] = self._name + self._stamp()\n"},
+        {"file": "naunet/configuration.py", "old": "        self._network_grains = []\n\n    def _stamp", "new": "        self._network_grains = []\n        self._tag = self._stamp()\n\n    def _stamp"}], "rules": ["R2"]},
+]
+_KINIT = "        cls.reacformat = \"idx,r,r,r,p,p,p,p,tmin,tmax,rate\"\n        cls._user_commons = []\n        cls._user_vars = []\n"
+MUTANTS += [
+    {"name": "krome-reset-helper-forgets-format", "file": KR, "old": _KINIT,
+     "new": "        cls._clear_directives()\n\n    @classmethod\n    def _clear_directives(cls) -> None:\n        cls._user_commons, cls._user_vars = [], []\n", "rules": ["R4"]},
+]
 BENIGN = [
+    {"name": "krome-reset-through-private-helper", "file": KR, "old": _KINIT,
+     "new": "        cls.reacformat = \"idx,r,r,r,p,p,p,p,tmin,tmax,rate\"\n        cls._clear_directives()\n\n    @classmethod\n    def _clear_directives(cls) -> None:\n        cls._user_commons, cls._user_vars = [], []\n"},
+    {"name": "creation-time-in-private-helper-of-content", "edits": [
+        {"file": "naunet/configuration.py", "old": "    @property\n    def content(self) -> str:\n",
+         "new": "    def _fill_general(self, general) -> None:\n        general[\"creation_time\"] = datetime.now().strftime(\"%d/%m/%Y %H:%M:%S\")\n\n    @property\n    def content(self) -> str:\n"},
+        {"file": "naunet/configuration.py", "old": "        general[\"creation_time\"] = datetime.now().strftime(\"%d/%m/%Y %H:%M:%S\")\n        general[\"name\"]", "new": "        self._fill_general(general)\n        general[\"name\"]"}]},
+    {"name": "tables-extended-through-shared-helper", "edits": [
+        {"file": SP, "old": "                cls._known_pseudoelements.remove(ele)\n                cls._known_elements.append(ele)\n            else:\n                cls._known_elements.append(ele)\n",
+         "new": "                cls._move(ele, cls._known_pseudoelements, cls._known_elements)\n            else:\n                cls._move(ele, None, cls._known_elements)\n"},
+        {"file": SP, "old": _RESET, "new": "    @staticmethod\n    def _move(ele, src, dst) -> None:\n        if src is not None:\n            src.remove(ele)\n        dst.append(ele)\n\n" + _RESET}]},
+    {"name": "installation-in-private-helper", "edits": [
+        {"file": NF, "old": _INST, "new": "        self._install_lists()\n", "count": 6},
+        {"file": NF, "old": _HELPER_AT, "new": "    def _install_lists(self) -> None:\n" + _INST + "\n" + _HELPER_AT}]},
+    {"name": "installation-helper-with-guard-clause", "edits": [
+        {"file": NF, "old": _INST, "new": "        self._install_lists()\n", "count": 6},
+        {"file": NF, "old": _HELPER_AT, "new": "    def _install_lists(self) -> None:\n        if not (self._known_elements or self._known_pseudo_elements):\n            return\n\n"
+                                               "        Species.set_known_elements(self._known_elements)\n        Species.set_known_pseudoelements(self._known_pseudo_elements)\n\n" + _HELPER_AT}]},
+    {"name": "initialize-behind-cached-test-and-guard-clause", "edits": [
+        {"file": NF, "old": "        if not isinstance(reaction, Reaction):\n            # create reaction instance from string\n            # change some global settings or class attibutes if needed\n"
+                            "            if rclass:\n                rclass.initialize()\n            else:\n                raise RuntimeError(f\"Unknown format: {format}\")",
+         "new": "        from_string = not isinstance(reaction, Reaction)\n        if from_string:\n            if not rclass:\n                raise RuntimeError(f\"Unknown format: {format}\")\n            rclass.initialize()"},
+        {"file": NF, "old": "        if rclass:\n            rclass.initialize()\n        else:\n            raise RuntimeError(f\"Unknown format: {format}\")\n\n        with open",
+         "new": "        if rclass is None:\n            raise RuntimeError(f\"Unknown format: {format}\")\n        rclass.initialize()\n\n        with open"}]},
     {"name": "sorted-set-iteration", "file": NF, "old": "        source = self._reactants.difference(self._products)", "new": "        source = self._reactants.difference(self._products)\n        _names = [s.name for s in sorted(source)]"},
 ]
